@@ -17,5 +17,5 @@ run_one() {
 }
 export -f run_one
 for id in $IDS; do
-  for p in mutants/$id/*.patch seeded/$id/patch.diff; do [ -f "$p" ] && echo "$p $id $SEED"; done
+  for p in mutants/$id/*.patch seeded/$id/patch.diff seeded/$id-[0-9]/patch.diff; do [ -f "$p" ] && echo "$p $id $SEED"; done
 done | xargs -P "$J" -L 1 bash -c 'run_one $0 $1 $2' | sort -k2,2 -k3,3
